@@ -38,10 +38,19 @@ def break_refs(text, rng):
     if not spots:
         return text
     for m in sorted(rng.sample(spots, min(len(spots), rng.choice([1, 1, 2]))), key=lambda m: -m.start()):
-        if rng.random() < 0.3:
+        r = rng.random()
+        if r < 0.25:
             text = text[:m.start(2) - 1] + ' #' + m.group(2) + ' ' + text[m.end(2):]      # url=" #id "
+        elif r < 0.5:
+            text = text[:m.start()] + text[m.end():]       # the attribute is gone: a built-in exception inside the loader
         else:
             text = text[:m.start(2)] + 'nosuch' + text[m.end(2):]
+    if rng.random() < 0.4:
+        # a transform without its numbers (another built-in exception, reported with the qualified tag of the element)
+        ts = [m for m in re.finditer(r'<((?:\w+:)?(?:translate|rotate|scale|matrix|lookat))((?:\s[^>]*)?)>[^<]*</\1>', text)]
+        if ts:
+            m = rng.choice(ts)
+            text = text[:m.start()] + '<%s%s/>' % (m.group(1), m.group(2)) + text[m.end():]
     return text
 
 
@@ -53,7 +62,7 @@ def adversarial_foreign(rng):
                        xmldocs.FOREIGN_NS])
 
 
-def variants(text, rng):
+def variants(text, rng, long=False):
     ns = root_ns(text)
     k = rng.randint(0, 10 ** 6)
     # URIs of different lengths and shapes (a loader must not care): short, long, with regex / format characters,
@@ -64,6 +73,9 @@ def variants(text, rng):
                       'a%d', 'ns with spaces %d', '%%41%%7B%d%%', 'http://www.collada.org/2008/03/COLLADASchem%d']) % k
     # (braces are not URI characters and pycollada's tag splitting relies on that: '{x' or 'x}y' as a namespace
     # name is outside the property's "any namespace URI")
+    if rng.random() < (0.6 if long else 0.15):
+        # much longer than the official URIs (anything that measures or cuts text containing a qualified tag)
+        rnd = 'http://example.org/' + '/'.join('segment%d' % ((k + j) % 97) for j in range(rng.choice([6, 10, 16]))) + '/COLLADASchema'
     if rng.random() < 0.25:
         # chosen against the tag text '{uri}COLLADA': ending in letters of COLLADA, containing it
         rnd = rng.choice(['a', '%', 'x y', 'http://example.org/schemas/COLLADA', 'urn:example:scene-3D', 'urn:x:%dA' % k,
@@ -104,7 +116,8 @@ def oracle(doc, ns, vs, r0, rs):
             kind = '1.5' if u == NS15 else ('1.4.1' if u == NS141 else 'random')
             out.append({'signature': 'C15:%s' % d[0], 'clause': d[0],
                         'what': 'namespace %s -> %s URI changes the load: %s' % (ns, kind, d[1]),
-                        'input': {'xml': doc['xml'], 'ignore': doc.get('ignore', False), 'new_ns': u, 'file': doc.get('file')},
+                        'input': {'xml': doc['xml'], 'ignore': doc.get('ignore', False), 'new_ns': u, 'file': doc.get('file'),
+                                  'zip_entries': doc.get('zip_entries')},
                         'detail': {'from': ns, 'to': u}})
             break
     return out
@@ -117,7 +130,7 @@ def make_docs(ctx, n, shipped=True):
         x, d = xmldocs.gen_document(rng, rng.choice([0, 1, 1, 2]), controllers=(True if i % 4 else None),
                                     animations=(True if i % 3 else None), foreign=(True if i % 2 else None),
                                     foreign_ns=(adversarial_foreign(rng) if i % 2 else None))
-        docs.append({'xml': x.decode('utf-8'), 'desc': d, 'ignore': False})
+        docs.append({'xml': x.decode('utf-8'), 'desc': d, 'ignore': False, 'zip': (i % 6 == 5)})
     nb = max(1, n // 3)
     for i in range(nb):
         # documents on which the loader records errors: dangling / padded references, vendor elements directly
@@ -138,14 +151,28 @@ def make_docs(ctx, n, shipped=True):
 
 
 def evaluate(ctx, docs):
-    """-> (failures, per-doc (ns, variants, result0, results))"""
+    """-> (failures, per-doc (ns, variants, result0, results)).  Documents flagged 'zip' are loaded from an
+    archive (a file-like object) in which they are the first of two .dae entries; the second entry is another
+    document in the 1.4.1 namespace: which entry pycollada takes must not depend on the URI of the first"""
     jobs, plan = [], []
+    other = None
     for doc in docs:
-        ns, vs = variants(doc['xml'], ctx.rng)
+        ns, vs = variants(doc['xml'], ctx.rng, long=bool(doc.get('broken')))
         plan.append((ns, vs, len(jobs)))
-        jobs.append({'xml': doc['xml'], 'ignore': doc.get('ignore', False)})
+        if doc.get('zip'):
+            if other is None:
+                other = xmldocs.gen_document(ctx.rng, 0, controllers=False, animations=False)[0].decode('utf-8')
+            extra = [['notes/readme.txt', 'not a document']] if ctx.rng.random() < 0.5 else []
+            doc['zip_entries'] = [extra, other]
+
+            def job(text):
+                return {'zip': extra + [['model.dae', text], ['zz/other.dae', other]], 'ignore': doc.get('ignore', False)}
+        else:
+            def job(text):
+                return {'xml': text, 'ignore': doc.get('ignore', False)}
+        jobs.append(job(doc['xml']))
         for u, text in vs:
-            jobs.append({'xml': text, 'ignore': doc.get('ignore', False)})
+            jobs.append(job(text))
     res = c05.run_docs(jobs, chunk=45)
     failures, per = [], []
     for doc, (ns, vs, at) in zip(docs, plan):
@@ -180,7 +207,7 @@ def run(ctx):
     for i, (doc, (ns, vs, r0, rs)) in enumerate(zip(docs, per)):
         if len(terms) >= ncoq:
             break
-        if doc.get('ignore') or doc.get('file') or 'snap' not in r0:
+        if doc.get('ignore') or doc.get('file') or doc.get('zip') or 'snap' not in r0:
             continue
         k = len(terms) % len(vs)
         if 'snap' not in rs[k]:
@@ -268,7 +295,12 @@ def replay(ctx, body):
     ns = root_ns(doc['xml'])
     u = inp.get('new_ns') or NS15
     vs = [(u, rename(doc['xml'], ns, u))]
-    res = c05.run_docs([{'xml': doc['xml'], 'ignore': doc['ignore']}, {'xml': vs[0][1], 'ignore': doc['ignore']}])
+    if inp.get('zip_entries'):
+        extra, other = inp['zip_entries']
+        res = c05.run_docs([{'zip': extra + [['model.dae', t], ['zz/other.dae', other]], 'ignore': doc['ignore']}
+                            for t in (doc['xml'], vs[0][1])])
+    else:
+        res = c05.run_docs([{'xml': doc['xml'], 'ignore': doc['ignore']}, {'xml': vs[0][1], 'ignore': doc['ignore']}])
     fails = oracle(doc, ns, vs, res[0], res[1:])
     print(json.dumps([{k: f[k] for k in ('signature', 'what')} for f in fails], indent=1))
     rc = 1 if fails else 0
